@@ -32,4 +32,9 @@ for p0, tier in [(1, 'quick'), (128, 'quick'), (255, 'quick')] + [(p, 'thorough'
         bound='p0=%d, every normalised state x in [4096, 2^20), both bit values' % p0, covers='rabs_desc_write, rabs_desc_read, fastdiv (DRACO_ANS_DIVREM)'))
 OBLIGATIONS.append(Ob('C17.rbit_rt_2', B, 'h_rbit_rt', tier='thorough', unwind=12, defines={'NBITS': 2}, max_alloc=64,
     bound='every 2-bit sequence', covers='RAnsBitEncoder::EncodeBit/EndEncoding (probability clamp, rabs_write, ans_write_end), RAnsBitDecoder::StartDecoding/DecodeNextBit'))
+K = 'C17/coders.cc'
+OBLIGATIONS.append(Ob('C17.adaptive_clamp', K, 'h_clamp', tier='quick', unwind=3, ub=True, flavour='nospec', backend='kissat',
+    bound='every double p in [0,1], both bit values', covers='clamp_probability, update_probability (adaptive_rans_bit_coding_shared.h)'))
+OBLIGATIONS.append(Ob('C17.adaptive_rt_3', K, 'h_adaptive_rt', tier='quick', unwind=12, defines={'NBITS': 3}, max_alloc=32, backend='kissat',
+    bound='every 3-bit sequence', covers='AdaptiveRAnsBitEncoder::EncodeBit/EndEncoding, AdaptiveRAnsBitDecoder::StartDecoding/DecodeNextBit, rabs_desc_write/read'))
 META = {}
